@@ -111,27 +111,30 @@ def main():
     # ---- plan the histories first, so that one fresh interpreter can compute every baseline
     plans = []
     need = set()
-    for h in range(nhist):
-        k = rnd.randint(2, 4)
-        strs = [rnd.choice(texts) for _ in range(k)]
-        if rnd.random() < 0.3:
-            strs[0] = rnd.choice(sorted(deadend_texts))
-        if h % 3 == 1:
-            strs[0], strs[1] = sibling_pair(rnd)      # same plain text everywhere, other weights / transition lists
-        if rnd.random() < 0.5:
+    nsib = 14 if quick else 400
+    rnd_s = random.Random(ck.seed + 1010)
+    for h in range(nhist + nsib):
+        r_ = rnd if h < nhist else rnd_s              # the sibling histories draw from their own stream: the others stay what they were
+        k = r_.randint(2, 4)
+        strs = [r_.choice(texts) for _ in range(k)]
+        if r_.random() < 0.3:
+            strs[0] = r_.choice(sorted(deadend_texts))
+        if h >= nhist:
+            strs[0], strs[1] = sibling_pair(r_)      # same plain text everywhere, other weights / transition lists
+        if r_.random() < 0.5:
             strs.append(strs[0])                      # a second instance parsed from the same string
         # one system (ensemble) made of two of the strings, in a third of the histories: System.generate(rng=...) is a generation too
-        if rnd.random() < 0.35:
+        if r_.random() < 0.35:
             parts = [t for t in strs if "." not in t][:2]
             if len(parts) == 2:
                 strs.append("SYSTEM:" + parts[0] + ".|300|" + parts[1] + ".|700|")
         ops = []
-        for _ in range(rnd.randint(15, 40)):
-            r = rnd.random()
-            i = rnd.randrange(len(strs))
+        for _ in range(r_.randint(15, 40)):
+            r = r_.random()
+            i = r_.randrange(len(strs))
             if strs[i].startswith("SYSTEM:"):
                 if r < 0.7:
-                    seed = rnd.randrange(5)
+                    seed = r_.randrange(5)
                     ops.append(("generate", i, seed))
                     need.add((strs[i], seed))
                 elif r < 0.85:
@@ -140,7 +143,7 @@ def main():
                     ops.append(("global", i))
                 continue
             if r < 0.45:
-                seed = rnd.randrange(5)
+                seed = r_.randrange(5)
                 ops.append(("generate", i, seed))
                 need.add((strs[i], seed))
             elif r < 0.55:
@@ -159,11 +162,11 @@ def main():
                 ops.append(("generate_global", i))
             elif r < 0.94:
                 # the same generation while RDKit's (privately random) embedding fails for the k-th fragment
-                seed = rnd.randrange(5)
-                ops.append(("generate_embedfail", i, seed, rnd.randrange(6)))
+                seed = r_.randrange(5)
+                ops.append(("generate_embedfail", i, seed, r_.randrange(6)))
                 need.add((strs[i], seed))
             else:
-                ops.append(("ff", i, rnd.randrange(5)))
+                ops.append(("ff", i, r_.randrange(5)))
                 need.add((strs[i], ops[-1][2]))
         plans.append((strs, ops))
     need = sorted(need)
